@@ -261,3 +261,16 @@ package wire
 //@   after call IDGenerator).Next: drawn = res0
 //@   after call IDGenerator).Next: fresh1 = true
 //@   assert call sendRequest: fresh1 && req.RequestID == drawn
+
+// ---------------------------------------------------------------- C07: registering an upstream
+// Opening (or resuming) an upstream registers, under its alias, an ack channel made for this very
+// registration - never one left over from an earlier stream that used the alias - its id and a
+// writer chosen by its QoS, and touches no other alias.
+//@ func (*ClientConn).openUpstream
+//@   props C07
+//@   requires c.upstreams != nil && c.upstreams.mu != nil && c.upstreams.acks != nil && c.upstreams.aliases != nil && c.upstreams.messageWriters != nil
+//@   requires qoS == message.QoSReliable || qoS == message.QoSPartial || qoS == message.QoSUnreliable
+//@   ensures has(c.upstreams.acks, streamIDAlias) && fresh(c.upstreams.acks[streamIDAlias]) && cap(c.upstreams.acks[streamIDAlias]) >= 1
+//@   ensures has(c.upstreams.aliases, streamID) && c.upstreams.aliases[streamID] == streamIDAlias
+//@   ensures has(c.upstreams.messageWriters, streamIDAlias) && c.upstreams.messageWriters[streamIDAlias] == ite(qoS == message.QoSUnreliable && c.unreliableTransport != nil, c.unreliableTransport, c.transport)
+//@   ensures forall(a, uint32, imp(a != streamIDAlias, has(c.upstreams.acks, a) == old(has(c.upstreams.acks, a)) && c.upstreams.acks[a] == old(c.upstreams.acks[a]) && has(c.upstreams.messageWriters, a) == old(has(c.upstreams.messageWriters, a)) && c.upstreams.messageWriters[a] == old(c.upstreams.messageWriters[a])))
